@@ -22,6 +22,9 @@ CELLS = [
     dict(name="sc1", D=1, num=[[0, 0, 0]], species=[0]),
     dict(name="two", D=4, num=[[0, 0, 0], [1, 2, 3]], species=[0, 1]),
     dict(name="three", D=6, num=[[1, 1, 1], [3, 3, 3], [5, 2, 4]], species=[0, 1, 0]),
+    # same abstract cells, realised with non-collinear moments / with positions off the grid by far less than symprec
+    dict(name="two-noncollinear", D=4, num=[[0, 0, 0], [1, 2, 3]], species=[0, 1], mag="noncollinear"),
+    dict(name="three-noisy", D=6, num=[[1, 1, 1], [3, 3, 3], [5, 2, 4]], species=[0, 1, 0], noise=2e-8),
 ]
 
 
@@ -120,9 +123,13 @@ def gen_events(ctx):
         lat = xtal.triclinic_lattice(nprng)
         masses = [10.0 + 3 * s + 0.5 * i for i, s in enumerate(ac["species"])]
         mag = [0.5 * (i + 1) for i in range(len(ac["num"]))] if ci == 2 else None
+        if ac.get("mag") == "noncollinear":
+            mag = [[0.1 * (i + 1), -0.2 * (i + 1), 0.3 + i] for i in range(len(ac["num"]))]
         ucell = xtal.make_cell(ac["num"], ac["D"], lat, ac["species"], masses, mag)
+        if ac.get("noise"):
+            ucell.scaled_positions = ucell.scaled_positions + nprng.uniform(-ac["noise"], ac["noise"], size=(len(ac["num"]), 3))
         # larger cells on a subset of S only (quick)
-        sub = Ss if ci == 0 else Ss[:: (4 if ctx.quick else 3) if ci == 1 else (8 if ctx.quick else 6)]
+        sub = Ss if ci == 0 else Ss[:: (4 if ctx.quick else 3) if ci == 1 else (8 if ctx.quick else 6) if ci == 2 else (16 if ctx.quick else 8)]
         for S in sub:
             for style in ("classic", "snf"):
                 if style == "snf" and "err" in snf_table.get(tuple(map(tuple, S)), {}):
